@@ -323,6 +323,48 @@ func init() {
 		if thorough {
 			n = 3000
 		}
+		// table cells behind columns covered from above: each cell text in the column the spans leave for it
+		for name, tc := range map[string]struct {
+			html string
+			want [][]string
+		}{
+			"block-span": {`<table><tr><td rowspan="2" colspan="2">A</td><td>B</td></tr><tr><td>C</td></tr><tr><td>D</td><td>E</td><td>F</td></tr></table>`,
+				[][]string{{"A", "", "B"}, {"", "", "C"}, {"D", "E", "F"}}},
+			"two-row-spans-side-by-side": {`<table><tr><td rowspan="2">A</td><td rowspan="2">B</td><td>C</td></tr><tr><td>D</td></tr></table>`,
+				[][]string{{"A", "B", "C"}, {"", "", "D"}}},
+			"three-covered-then-two-cells": {`<table><tr><td rowspan="3" colspan="3">A</td><td>B</td><td>C</td></tr><tr><td>D</td><td>E</td></tr><tr><td>F</td></tr></table>`,
+				[][]string{{"A", "", "", "B", "C"}, {"", "", "", "D", "E"}, {"", "", "", "F", ""}}},
+			"covered-in-the-middle": {`<table><tr><td>A</td><td rowspan="2" colspan="2">B</td><td>C</td></tr><tr><td>D</td><td>E</td></tr></table>`,
+				[][]string{{"A", "B", "", "C"}, {"D", "", "", "E"}}},
+		} {
+			doc := `<html><body>` + tc.html + `</body></html>`
+			why := ""
+			rd, err := htmldoc.OpenReader(strings.NewReader(doc))
+			if err != nil {
+				why = err.Error()
+			} else {
+				md, err := rd.Markdown()
+				var tbl strings.Builder
+				for _, ln := range strings.Split(md, "\n") {
+					if strings.HasPrefix(strings.TrimSpace(ln), "|") {
+						tbl.WriteString(strings.TrimSpace(ln) + "\n")
+					}
+				}
+				grid, ok := gfmTable(tbl.String())
+				if err != nil || !ok || len(grid) != len(tc.want) {
+					why = fmt.Sprintf("the Markdown table does not read back with %d rows: %q (%v)", len(tc.want), md, err)
+				} else {
+					for i := range tc.want {
+						for j := range tc.want[i] {
+							if j >= len(grid[i]) || strings.TrimSpace(grid[i][j]) != tc.want[i][j] {
+								why = fmt.Sprintf("row %d column %d should hold %q: %q", i+1, j+1, tc.want[i][j], md)
+							}
+						}
+					}
+				}
+			}
+			r.Check(why == "", "table-grid-markdown", name+": "+why, Bs(doc))
+		}
 		// class/id pattern: the regexp against the model on the vocabulary and its neighbourhood
 		for _, nm := range c19Names {
 			for _, dec := range []string{"%s", "x%s", "%sx", "x-%s", "%s_2", "my %s here", "%s9", "9%s", "-%s-", "A%s"} {
